@@ -1,14 +1,22 @@
 """C13 kernels.  The arithmetic C13 leans on is mostly translated already (Geometries: nr_sphere ea_sag pg_sag
 are the start point and the sag of the batch Newton loop modelled in Model/M_C13.v; Paraxial: surf_trace_paraxial).
-New here: SurfaceGroup.get_thickness (reads the positions property, used by scale_system / set_thickness to decide
-what an edit is).  The record plumbing itself (reset/_record/getters/trace/inverted) manipulates objects, not
-numbers: it is hand-modelled in coq/Model/M_C13.v and tied by the record-size correspondence."""
+New here:
+  * SurfaceGroup.get_thickness (reads the positions property; used by set_thickness / scale_system, the EDITING calls);
+  * Wavefront._opd_image_to_xp and Wavefront._get_path_length: the code that READS the record table after a trace
+    (surface_group.x[-1, :] ... -> `row_inputs`: the last-row value of the ray is the kernel's input).
+The record plumbing itself (reset/_record/getters/trace/inverted) manipulates objects, not numbers: it is
+hand-modelled in coq/Model/M_C13.v and tied by the record-size correspondence."""
 SG = 'optiland/surfaces/surface_group.py'
+WF = 'optiland/wavefront.py'
+ROWS = ['self.optic.surface_group.' + g for g in ('x', 'y', 'z', 'L', 'M', 'N', 'opd')]
 
 MODULES = {
     'C13Kern': [
         dict(name='sg_get_thickness', file=SG, cls='SurfaceGroup', func='get_thickness',
              types={'surface_number': 'int', 'self.positions': 'list'}),
+        dict(name='wf_opd_image_to_xp', file=WF, cls='Wavefront', func='_opd_image_to_xp', row_inputs=ROWS),
+        dict(name='wf_path_length', file=WF, cls='Wavefront', func='_get_path_length', row_inputs=ROWS,
+             calls={'self._opd_image_to_xp': 'wf_opd_image_to_xp'}),
     ],
 }
 MODULE_DEPS = {}
